@@ -80,7 +80,8 @@ def too_many_hangs(stats=None):
 
 @contextlib.contextmanager
 def watchdog(run, seconds=None):
-    """SIGALRM based; only active in the main thread (elsewhere it is a no-op)"""
+    """CPU-time based (ITIMER_PROF / SIGPROF: the seconds are seconds of THIS process's CPU time, so a heavily loaded machine cannot
+    make a healthy call look like a hang); only active in the main thread (elsewhere it is a no-op)"""
     seconds = seconds or WATCHDOG_S
     if threading.current_thread() is not threading.main_thread() or not hasattr(signal, "setitimer"):
         yield
@@ -91,18 +92,18 @@ def watchdog(run, seconds=None):
         _HANGS[0] += 1
         raise Hang("a solver call did not return within %g s" % seconds)
     try:
-        old = signal.signal(signal.SIGALRM, handler)
+        old = signal.signal(signal.SIGPROF, handler)
     except ValueError:
         yield
         return
-    old_timer = signal.setitimer(signal.ITIMER_REAL, seconds)
+    old_timer = signal.setitimer(signal.ITIMER_PROF, seconds)
     try:
         yield
     finally:
-        signal.setitimer(signal.ITIMER_REAL, 0)
-        signal.signal(signal.SIGALRM, old)
+        signal.setitimer(signal.ITIMER_PROF, 0)
+        signal.signal(signal.SIGPROF, old)
         if old_timer[0] > 0:
-            signal.setitimer(signal.ITIMER_REAL, *old_timer)
+            signal.setitimer(signal.ITIMER_PROF, *old_timer)
 
 
 class OracleFailure(BaseException):
